@@ -15,7 +15,7 @@ EXTENDS Integers, Sequences, FiniteSets, TLC, Json
 
 CONSTANTS ConeMenu,      \* candidate cones: records [k |-> kind, d |-> number of rows]
           MaxCones, MaxM,
-          BClasses,      \* subset of {"fin", "big", "huge"}
+          BClasses,      \* subset of {"fin", "big", "huge", "neg"}  ("neg": <= -1e20, hugely negative)
           Bounds         \* bounds that can be in force: subset of {"1e20", "1e10"}
 
 Kinds == {"Zero", "NN", "SOC", "Exp", "Pow", "GenPow", "PSD"}
